@@ -423,14 +423,20 @@ Section Main.
     | _ => match u_meta u cl with Some m => m_qname m | None => [] end
     end.
 
+  (* the xsi:type the serializer adds for an instance of a subclass *)
+  Definition xsi_val (xt : option qname) : option qname :=
+    match xt with Some ((_ :: _) as q) => Some q | _ => None end.
+  Definition xsi_okq (xt : option qname) : Prop :=
+    forall q, xsi_val xt = Some q -> ok (PQName q) = true /\ qname_ok q = true.
+
   Definition obj_parses (k : nat) : Prop :=
-    forall cl o qn, wfr cl -> fits k cl o = true ->
-    forall pevs, reads (eobj k qn o) pevs ->
+    forall cl o qn xt, wfr cl -> fits k cl o = true -> xsi_okq xt ->
+    forall pevs, reads (add_xsi_e xt (eobj k qn o)) pevs ->
     exists attrs ns inner,
       pevs = PStart (elem_name qn cl) attrs ns :: inner
-      /\ assoc XSI_TYPE attrs = None /\ assoc XSI_NIL attrs = None
-      /\ forall m, u_meta u cl = Some m -> forall Q objs W rest,
-           prun (mk_pstate (NElement (mk_enode m attrs ns (length objs) false None None [] []) :: Q) objs W) (inner ++ rest)
+      /\ Parser.xsi_type_of c attrs ns = ROk (xsi_val xt) /\ assoc XSI_NIL attrs = None
+      /\ forall m, u_meta u cl = Some m -> forall xtv Q objs W rest,
+           prun (mk_pstate (NElement (mk_enode m attrs ns (length objs) false xtv None [] []) :: Q) objs W) (inner ++ rest)
            = prun (mk_pstate Q (objs ++ [(Some (elem_name qn cl), o)]) W) rest.
 
   Lemma reads_content_elems ns ekids text kes :
@@ -461,9 +467,16 @@ Section Main.
     Hypothesis Hnames : map fst fs = map v_name (get_all_vars m).
     Hypothesis Hfa : forall e, In e (m_attributes m) -> fits_attr (snd e) (field_of fs (snd e)) = true.
 
+    Variable xt0 : option qname.      (* the xsi:type attribute of this element, if any *)
+    Hypothesis Hxt0 : xsi_okq xt0.
+
     Let F (var : xvar) : value := field_of fs var.
     Let avars := get_attribute_vars m.
     Let eats := flat_map (fun var => e_attr var (F var)) avars.
+    Let eatsx := eats ++ xsi_attr_e xt0.
+    (* the attributes bound to fields: everything but xsi:type *)
+    Definition decl (attrs : list (qname * str)) : list (qname * str) :=
+      filter (fun qs => negb (str_eqb (fst qs) XSI_TYPE)) attrs.
 
     Definition entry (q : qname) : str * pval :=
       match assoc q (m_attributes m) with
@@ -483,31 +496,55 @@ Section Main.
       apply assoc_nodup; assumption.
     Qed.
 
+    Lemma xsi_not_attr : assoc XSI_TYPE (m_attributes m) = None.
+    Proof.
+      destruct (wf_class_inv m Hwc) as [F1 F2 F3 F4 F5 F6 F7 F8 F9 F10 F11 F12 F13].
+      apply assoc_none. intros Hi. apply in_map_iff in Hi as [[q var] [Eq Hin]]. cbn [fst] in Eq. subst q.
+      rewrite forallb_forall in F9. specialize (F9 _ Hin). cbn [fst snd] in F9. apply andb_true_iff in F9 as [Hq Hw].
+      apply str_eqb_eq in Hq. destruct (wf_attr_inv var Hw) as [_ [_ [_ [_ [Hr _]]]]].
+      unfold reserved_name in Hr. rewrite Hq, str_eqb_refl, orb_true_r in Hr. discriminate Hr.
+    Qed.
+
+    Lemma xsi_type_uri : ostr_eqb (target_uri XSI_TYPE) (Some XSI_NS) = true.
+    Proof. vm_compute. reflexivity. Qed.
+
     Lemma bind_attrs_loop_ok en : en_meta en = m -> forall attrs p,
-      (forall q s, In (q, s) attrs -> carried (en_ns en) q s) ->
-      NoDup (map fst p ++ map (fun qs => fst (entry (fst qs))) attrs) ->
-      bind_attrs_loop cfg c en attrs p [] = ROk (p ++ map (fun qs => entry (fst qs)) attrs, []).
+      (forall q s, In (q, s) attrs -> q = XSI_TYPE \/ carried (en_ns en) q s) ->
+      NoDup (map fst p ++ map (fun qs => fst (entry (fst qs))) (decl attrs)) ->
+      bind_attrs_loop cfg c en attrs p [] = ROk (p ++ map (fun qs => entry (fst qs)) (decl attrs), []).
     Proof.
       intros Hen. induction attrs as [|[q s] attrs IH]; intros p Hc Hn.
-      - cbn [bind_attrs_loop map]. rewrite app_nil_r. reflexivity.
-      - destruct (Hc q s (or_introl eq_refl)) as [var [t [Hin [Hq [Hw [Ht [Hs [Htk Hvt]]]]]]]].
-        pose proof (assoc_attr q var Hin) as Ha.
-        cbn [bind_attrs_loop]. rewrite Hen. unfold find_attribute. rewrite Ha.
-        assert (He : entry q = (v_name var, PV (F var))) by (unfold entry; rewrite Ha; reflexivity).
-        assert (Hfresh : ~ In (v_name var) (map fst p)).
-        { cbn [map fst] in Hn. rewrite He in Hn. cbn [fst] in Hn. apply NoDup_remove_2 in Hn.
-          intros Hin'. apply Hn. apply in_or_app. left; exact Hin'. }
-        rewrite (pmem_false _ _ Hfresh).
-        unfold bind_attr. rewrite Hen.
-        rewrite (parse_var_vtext m var t (F var) (en_ns en) s Ht Hs Htk Hvt). cbn [rbind].
-        destruct (wf_attr_inv var Hw) as [_ [Hcm _]]. destruct (var_common_inv var Hcm) as [Hinit _].
-        rewrite Hinit. cbn [rbind fst snd app].
-        rewrite (pset_fresh _ _ _ Hfresh).
-        rewrite IH.
-        + cbn [map fst]. rewrite He, <- app_assoc. reflexivity.
-        + intros q' s' H'. apply Hc. right; exact H'.
-        + rewrite map_app. cbn [map fst]. rewrite <- app_assoc. cbn [app].
-          cbn [map fst] in Hn. rewrite He in Hn. exact Hn.
+      - cbn [bind_attrs_loop map decl filter]. rewrite app_nil_r. reflexivity.
+      - destruct (str_eqb_spec q XSI_TYPE) as [->|Hnx].
+        + (* xsi:type: no field, the xsi namespace is never an unknown attribute *)
+          destruct (wf_class_inv m Hwc) as [F1 F2 F3 F4 F5 F6 F7 F8 F9 F10 F11 F12 F13].
+          cbn [bind_attrs_loop]. rewrite Hen. unfold find_attribute. rewrite xsi_not_attr.
+          unfold find_any_attributes. rewrite F3. cbn [find_by_namespace find].
+          rewrite xsi_type_uri. cbn [negb]. rewrite andb_false_r.
+          assert (Ed : decl ((XSI_TYPE, s) :: attrs) = decl attrs).
+          { unfold decl. cbn [filter fst]. rewrite str_eqb_refl. reflexivity. }
+          rewrite Ed in *. apply IH; [|exact Hn]. intros q' s' H'. apply Hc. right; exact H'.
+        + assert (Ed : decl ((q, s) :: attrs) = (q, s) :: decl attrs).
+          { unfold decl. cbn [filter fst]. destruct (str_eqb_spec q XSI_TYPE); [contradiction|reflexivity]. }
+          rewrite Ed in *.
+          destruct (Hc q s (or_introl eq_refl)) as [E|[var [t [Hin [Hq [Hw [Ht [Hs [Htk Hvt]]]]]]]]]; [contradiction|].
+          pose proof (assoc_attr q var Hin) as Ha.
+          cbn [bind_attrs_loop]. rewrite Hen. unfold find_attribute. rewrite Ha.
+          assert (He : entry q = (v_name var, PV (F var))) by (unfold entry; rewrite Ha; reflexivity).
+          assert (Hfresh : ~ In (v_name var) (map fst p)).
+          { cbn [map fst] in Hn. rewrite He in Hn. cbn [fst] in Hn. apply NoDup_remove_2 in Hn.
+            intros Hin'. apply Hn. apply in_or_app. left; exact Hin'. }
+          rewrite (pmem_false _ _ Hfresh).
+          unfold bind_attr. rewrite Hen.
+          rewrite (parse_var_vtext m var t (F var) (en_ns en) s Ht Hs Htk Hvt). cbn [rbind].
+          destruct (wf_attr_inv var Hw) as [_ [Hcm _]]. destruct (var_common_inv var Hcm) as [Hinit _].
+          rewrite Hinit. cbn [rbind fst snd app].
+          rewrite (pset_fresh _ _ _ Hfresh).
+          rewrite IH.
+          * cbn [map fst]. rewrite He, <- app_assoc. reflexivity.
+          * intros q' s' H'. apply Hc. right; exact H'.
+          * rewrite map_app. cbn [map fst]. rewrite <- app_assoc. cbn [app].
+            cbn [map fst] in Hn. rewrite He in Hn. exact Hn.
     Qed.
 
     Lemma NoDup_map_inj_in {A B} (g : A -> B) l :
@@ -554,84 +591,143 @@ Section Main.
       - apply (IH Hr Ha Hb).
     Qed.
 
-    Lemma reads_attrs_carried ns attrs : reads_attrs ns eats attrs ->
-      (forall q s, In (q, s) attrs -> carried ns q s)
+    (* the names in the event: those of the emitted attributes, and xsi:type *)
+    Definition xsi_name : list qname := match xsi_val xt0 with Some _ => [XSI_TYPE] | None => [] end.
+
+    Lemma xsi_attr_e_val : xsi_attr_e xt0 = match xsi_val xt0 with
+                                            | Some q => [(Bind.split_qname XSI_TYPE, [AQName (Bind.split_qname q)])]
+                                            | None => []
+                                            end.
+    Proof. destruct xt0 as [[|ch q]|]; reflexivity. Qed.
+
+    Lemma emitted_not_xsi var : In var avars -> ~ In XSI_TYPE (emitted var).
+    Proof.
+      intros Hin Hi. unfold emitted in Hi. destruct (e_attr var (F var)); [destruct Hi|]. destruct Hi as [E|[]].
+      destruct (wf_class_avar m var Hwc Hin) as [Hw _]. destruct (wf_attr_inv var Hw) as [_ [_ [_ [_ [Hr _]]]]].
+      unfold reserved_name in Hr. rewrite E, str_eqb_refl, orb_true_r in Hr. discriminate Hr.
+    Qed.
+
+    Lemma reads_attrs_carried ns attrs : reads_attrs ns eatsx attrs ->
+      (forall q s, In (q, s) attrs ->
+         (q = XSI_TYPE /\ exists xq, xsi_val xt0 = Some xq /\ resolve_qname ns s = Some (Bind.split_qname xq))
+         \/ (q <> XSI_TYPE /\ carried ns q s))
       /\ (forall var, In var avars -> e_attr var (F var) <> [] -> exists s, In (v_qname var, s) attrs)
-      /\ NoDup (map fst attrs).
+      /\ NoDup (map fst attrs)
+      /\ (xsi_val xt0 = None -> ~ In XSI_TYPE (map fst attrs))
+      /\ (forall xq, xsi_val xt0 = Some xq -> exists s, In (XSI_TYPE, s) attrs /\ resolve_qname ns s = Some (Bind.split_qname xq)).
     Proof.
       intros [Hnd [Hlen Hall]].
-      set (K := flat_map emitted avars).
+      set (K := flat_map emitted avars ++ xsi_name).
       assert (Hcase : forall var, In var avars ->
                 (e_attr var (F var) = [] /\ default_call (v_default var) = F var)
                 \/ (exists t, e_attr var (F var) = [(Bind.split_qname (v_qname var), e_atoms (v_format var) (F var))]
                               /\ v_types var = [t] /\ vshapeq t (v_format var) (F var) /\ tokens_agree var (F var))).
       { intros var Hin. destruct (wf_class_avar m var Hwc Hin) as [Hw Hina].
         apply (attr_cases var (F var) Hw). apply (Hfa _ Hina). }
-      (* every emitted attribute is in the event, with a text that reads as the value *)
       assert (HinL : forall var, In var avars -> e_attr var (F var) <> [] ->
                 exists t s, v_types var = [t] /\ vshapeq t (v_format var) (F var) /\ tokens_agree var (F var)
                             /\ vtext ns (v_format var) (F var) s /\ In (v_qname var, s) attrs).
       { intros var Hin Hne. destruct (Hcase var Hin) as [[E _]|[t [E [Ht [Hs Htk]]]]]; [congruence|].
         destruct (Hall (Bind.split_qname (v_qname var), e_atoms (v_format var) (F var))) as [v [Hv Hinv]].
-        { unfold eats. apply in_flat_map. exists var. split; [exact Hin|]. rewrite E. left; reflexivity. }
+        { unfold eatsx, eats. apply in_or_app. left. apply in_flat_map. exists var. split; [exact Hin|]. rewrite E. left; reflexivity. }
         cbn [fst snd] in *. rewrite clark_split in Hinv.
         exists t, v. repeat split; try assumption. apply (atoms_read_vtext c u ok t _ _ ns v Hs Hv). }
+      assert (HinX : forall xq, xsi_val xt0 = Some xq ->
+                exists s, In (XSI_TYPE, s) attrs /\ resolve_qname ns s = Some (Bind.split_qname xq)).
+      { intros xq Hx. destruct (Hall (Bind.split_qname XSI_TYPE, [AQName (Bind.split_qname xq)])) as [v [Hv Hinv]].
+        { unfold eatsx. apply in_or_app. right. rewrite xsi_attr_e_val, Hx. left; reflexivity. }
+        cbn [fst snd atoms_read] in *. rewrite clark_split in Hinv. exists v. split; assumption. }
       assert (HK1 : incl K (map fst attrs)).
-      { intros q Hq. unfold K in Hq. apply in_flat_map in Hq as [var [Hin Hq]].
-        unfold emitted in Hq. destruct (e_attr var (F var)) eqn:E; [destruct Hq|].
-        destruct Hq as [<-|[]]. destruct (HinL var Hin) as [t [s0 [_ [_ [_ [_ Hi]]]]]]; [congruence|].
-        apply in_map_iff. exists (v_qname var, s0). split; [reflexivity|exact Hi]. }
+      { intros q Hq. unfold K in Hq. apply in_app_or in Hq as [Hq|Hq].
+        - apply in_flat_map in Hq as [var [Hin Hq]].
+          unfold emitted in Hq. destruct (e_attr var (F var)) eqn:E; [destruct Hq|].
+          destruct Hq as [<-|[]]. destruct (HinL var Hin) as [t [s0 [_ [_ [_ [_ Hi]]]]]]; [congruence|].
+          apply in_map_iff. exists (v_qname var, s0). split; [reflexivity|exact Hi].
+        - unfold xsi_name in Hq. destruct (xsi_val xt0) as [xq|] eqn:Ex; [|destruct Hq]. destruct Hq as [<-|[]].
+          destruct (HinX xq eq_refl) as [s0 [Hi _]]. apply in_map_iff. exists (XSI_TYPE, s0). split; [reflexivity|exact Hi]. }
       assert (HK2 : NoDup K).
-      { unfold K. rewrite <- (map_id (flat_map emitted avars)).
-        apply (nodup_flat_opt v_qname (fun q : qname => q)); [exact avars_qnames_nodup|].
-        intros var _. unfold emitted. destruct (e_attr var (F var)); [left; reflexivity|].
-        right. eexists; split; reflexivity. }
+      { unfold K. apply NoDup_app_intro.
+        - rewrite <- (map_id (flat_map emitted avars)).
+          apply (nodup_flat_opt v_qname (fun q : qname => q)); [exact avars_qnames_nodup|].
+          intros var _. unfold emitted. destruct (e_attr var (F var)); [left; reflexivity|].
+          right. eexists; split; reflexivity.
+        - unfold xsi_name. destruct (xsi_val xt0); [constructor; [intros []|constructor]|constructor].
+        - intros q Hq1 Hq2. unfold xsi_name in Hq2. destruct (xsi_val xt0); [|destruct Hq2]. destruct Hq2 as [<-|[]].
+          apply in_flat_map in Hq1 as [var [Hin Hq1]]. apply (emitted_not_xsi var Hin Hq1). }
       assert (HK3' : forall l, incl l avars ->
                 length (flat_map emitted l) = length (flat_map (fun var => e_attr var (F var)) l)).
       { induction l as [|var r IH]; intros Hi; [reflexivity|].
         cbn [flat_map]. rewrite !app_length, IH.
         - f_equal. unfold emitted. destruct (Hcase var (Hi var (or_introl eq_refl))) as [[E _]|[t [E _]]]; rewrite E; reflexivity.
         - intros v Hvin. apply Hi. right; exact Hvin. }
-      assert (HK3 : length K = length eats) by (apply HK3'; apply incl_refl).
+      assert (HK3 : length K = length eatsx).
+      { unfold K, eatsx. rewrite !app_length. f_equal; [apply HK3'; apply incl_refl|].
+        rewrite xsi_attr_e_val. unfold xsi_name. destruct (xsi_val xt0); reflexivity. }
       assert (HK4 : incl (map fst attrs) K).
       { apply NoDup_length_incl; [exact HK2| |exact HK1]. rewrite map_length. apply Nat.eq_le_incl.
-        transitivity (length eats); [exact Hlen|symmetry; exact HK3]. }
-      split; [|split; [|exact Hnd]].
+        transitivity (length eatsx); [exact Hlen|symmetry; exact HK3]. }
+      split; [|split; [|split; [exact Hnd|split; [|exact HinX]]]].
       - intros q s Hqs.
         assert (Hq : In q K) by (apply HK4; apply in_map_iff; exists (q, s); split; [reflexivity|exact Hqs]).
-        unfold K in Hq. apply in_flat_map in Hq as [var [Hin Hq]].
-        unfold emitted in Hq. destruct (e_attr var (F var)) eqn:E; [destruct Hq|]. destruct Hq as [<-|[]].
-        destruct (HinL var Hin) as [t [s0 [Ht [Hs [Htk [Hvt Hi]]]]]]; [congruence|].
-        pose proof (nodup_keys_unique attrs (v_qname var) s s0 Hnd Hqs Hi) as Es. subst s0.
-        destruct (wf_class_avar m var Hwc Hin) as [Hw Hina].
-        exists var, t. repeat split; assumption.
+        unfold K in Hq. apply in_app_or in Hq as [Hq|Hq].
+        + right. apply in_flat_map in Hq as [var [Hin Hq]].
+          pose proof (emitted_not_xsi var Hin) as Hnx.
+          unfold emitted in Hq, Hnx. destruct (e_attr var (F var)) eqn:E; [destruct Hq|]. destruct Hq as [<-|[]].
+          split; [intros Ex; apply Hnx; left; exact Ex|].
+          destruct (HinL var Hin) as [t [s0 [Ht [Hs [Htk [Hvt Hi]]]]]]; [congruence|].
+          pose proof (nodup_keys_unique attrs (v_qname var) s s0 Hnd Hqs Hi) as Es. subst s0.
+          destruct (wf_class_avar m var Hwc Hin) as [Hw Hina].
+          exists var, t. repeat split; assumption.
+        + left. unfold xsi_name in Hq. destruct (xsi_val xt0) as [xq|] eqn:Ex; [|destruct Hq]. destruct Hq as [<-|[]].
+          split; [reflexivity|]. exists xq. split; [reflexivity|].
+          destruct (HinX xq eq_refl) as [s0 [Hi Hr]].
+          rewrite (nodup_keys_unique attrs XSI_TYPE s s0 Hnd Hqs Hi). exact Hr.
       - intros var Hin Hne. destruct (HinL var Hin Hne) as [t [s0 [_ [_ [_ [_ Hi]]]]]]. exists s0. exact Hi.
+      - intros Hx Hi. apply HK4 in Hi. unfold K in Hi. apply in_app_or in Hi as [Hi|Hi].
+        + apply in_flat_map in Hi as [var [Hin Hi]]. apply (emitted_not_xsi var Hin Hi).
+        + unfold xsi_name in Hi. rewrite Hx in Hi. destruct Hi.
+    Qed.
+
+    Lemma decl_in q s attrs : In (q, s) (decl attrs) <-> In (q, s) attrs /\ q <> XSI_TYPE.
+    Proof.
+      unfold decl. rewrite filter_In. cbn [fst]. split; intros [H1 H2]; (split; [exact H1|]).
+      - intros E. subst q. rewrite str_eqb_refl in H2. discriminate H2.
+      - destruct (str_eqb_spec q XSI_TYPE); [contradiction|reflexivity].
     Qed.
 
     Lemma bind_attrs_ok en attrs :
-      en_meta en = m -> en_attrs en = attrs -> reads_attrs (en_ns en) eats attrs ->
+      en_meta en = m -> en_attrs en = attrs -> reads_attrs (en_ns en) eatsx attrs ->
       exists pa, bind_attrs cfg c en = ROk (pa, [])
         /\ NoDup (map fst pa)
         /\ (forall k pv, In (k, pv) pa -> exists var, In var avars /\ k = v_name var /\ pv = PV (F var))
         /\ (forall var, In var avars -> ~ In (v_name var) (map fst pa) -> default_call (v_default var) = F var).
     Proof.
-      intros Hen Hat Hr. destruct (reads_attrs_carried (en_ns en) attrs Hr) as [Hc [Hem Hnd]].
-      assert (Hent : forall q s, In (q, s) attrs ->
+      intros Hen Hat Hr. destruct (reads_attrs_carried (en_ns en) attrs Hr) as [Hc [Hem [Hnd _]]].
+      assert (Hcd : forall q s, In (q, s) (decl attrs) -> carried (en_ns en) q s).
+      { intros q s Hqs. apply decl_in in Hqs as [Hqs Hnx]. destruct (Hc q s Hqs) as [[E _]|[_ H]]; [contradiction|exact H]. }
+      assert (Hndd : NoDup (map fst (decl attrs))).
+      { unfold decl. clear -Hnd. induction attrs as [|[q s] r IH]; [constructor|]. cbn [map fst] in Hnd. inversion Hnd as [|? ? Hq Hr']; subst.
+        cbn [filter fst]. destruct (negb (str_eqb q XSI_TYPE)); [|apply IH; exact Hr'].
+        cbn [map fst]. constructor; [|apply IH; exact Hr'].
+        intros Hi. apply Hq. apply in_map_iff in Hi as [[q' s'] [E Hi]]. cbn [fst] in E. subst q'.
+        apply filter_In in Hi as [Hi _]. apply in_map_iff. exists (q, s'). split; [reflexivity|exact Hi]. }
+      assert (Hent : forall q s, In (q, s) (decl attrs) ->
                 exists var, In var avars /\ v_qname var = q /\ entry q = (v_name var, PV (F var))).
-      { intros q s Hqs. destruct (Hc q s Hqs) as [var [t [Hin [Hq _]]]].
+      { intros q s Hqs. destruct (Hcd q s Hqs) as [var [t [Hin [Hq _]]]].
         exists var. split; [|split; [exact Hq|]].
         - unfold avars. rewrite (avars_eq m Hwc). apply sort_in. apply in_map_iff. exists (q, var). split; [reflexivity|exact Hin].
         - unfold entry. rewrite (assoc_attr q var Hin). reflexivity. }
-      assert (Hnames' : NoDup (map (fun qs : qname * str => fst (entry (fst qs))) attrs)).
-      { rewrite <- (map_map fst (fun q => fst (entry q))). apply NoDup_map_inj_in; [|exact Hnd].
+      assert (Hnames' : NoDup (map (fun qs : qname * str => fst (entry (fst qs))) (decl attrs))).
+      { rewrite <- (map_map fst (fun q => fst (entry q))). apply NoDup_map_inj_in; [|exact Hndd].
         intros q q' Hq Hq' E. apply in_map_iff in Hq as [[q0 s0] [E0 Hq]], Hq' as [[q1 s1] [E1 Hq']].
         cbn [fst] in E0, E1. subst q0 q1.
         destruct (Hent q s0 Hq) as [var [Hv [Hqv He]]], (Hent q' s1 Hq') as [var' [Hv' [Hqv' He']]].
         rewrite He, He' in E. cbn [fst] in E.
         pose proof (names_inj var var' (avar_all var Hv) (avar_all var' Hv') E). subst var'. congruence. }
-      exists (map (fun qs => entry (fst qs)) attrs).
+      exists (map (fun qs => entry (fst qs)) (decl attrs)).
       split; [|split; [|split]].
-      - unfold bind_attrs. rewrite Hat. rewrite (bind_attrs_loop_ok en Hen attrs [] Hc); [reflexivity|exact Hnames'].
+      - unfold bind_attrs. rewrite Hat. rewrite (bind_attrs_loop_ok en Hen attrs []); [reflexivity| |exact Hnames'].
+        intros q s Hqs. destruct (Hc q s Hqs) as [[E _]|[_ H]]; [left; exact E|right; exact H].
       - rewrite map_map. exact Hnames'.
       - intros k pv Hin. apply in_map_iff in Hin as [[q s] [E Hqs]]. cbn [fst] in E.
         destruct (Hent q s Hqs) as [var [Hv [_ He]]]. rewrite He in E. inversion E; subst.
@@ -642,8 +738,11 @@ Section Main.
         exfalso. apply Hnot. rewrite map_map.
         assert (Hqs0 : exists s0, In (v_qname var, s0) attrs) by (apply Hem; [exact Hv|congruence]).
         destruct Hqs0 as [s0 Hqs].
-        apply in_map_iff. exists (v_qname var, s0). split; [|exact Hqs].
-        destruct (Hent _ _ Hqs) as [var' [Hv' [Hq' He']]]. cbn [fst]. rewrite He'. cbn [fst].
+        assert (Hqd : In (v_qname var, s0) (decl attrs)).
+        { apply decl_in. split; [exact Hqs|]. intros Ex. destruct (wf_attr_inv var Hw) as [_ [_ [_ [_ [Hr' _]]]]].
+          unfold reserved_name in Hr'. rewrite Ex, str_eqb_refl, orb_true_r in Hr'. discriminate Hr'. }
+        apply in_map_iff. exists (v_qname var, s0). split; [|exact Hqd].
+        destruct (Hent _ _ Hqd) as [var' [Hv' [Hq' He']]]. cbn [fst]. rewrite He'. cbn [fst].
         f_equal. symmetry. apply (nodup_map_inj v_qname avars); [exact avars_qnames_nodup|exact Hv|exact Hv'|congruence].
     Qed.
 
@@ -998,10 +1097,10 @@ Section Main.
       intros Hv Hok. pose proof Hv as [Hw Hin]. unfold ienode, item_ok in *.
       destruct (v_tokens_factory var) as [tf|] eqn:Etf; [unfold RoundtripGen.e_prim; eauto|].
       destruct (wf_elem_inv var Hw) as [_ [_ [[k [Hty [Hcl _]]]|[[t [Hty [Hst _]]]|[Hty _]]]]].
-      - destruct (fits_item_class c u ok _ var k y Hty Hok) as [cl' [fs' [-> Hfk]]].
-        cbn [RoundtripGen.e_item]. destruct n as [|n']; [discriminate Hfk|].
-        destruct (fits_inv c u ok py_isspace n' k _ Hfk) as [fs'' [mk [E [Hmk _]]]]. inversion E; subst.
-        cbn [RoundtripGen.eobj]. rewrite Hmk. eauto.
+      - destruct (fits_item_class c u ok _ var k y Hty Hok) as [cl' [fs' [-> [[-> Hfk]|[_ Hfk]]]]];
+          cbn [RoundtripGen.e_item]; (destruct n as [|n']; [discriminate Hfk|]);
+          destruct (fits_inv c u ok py_isspace n' _ _ Hfk) as [fs'' [mk [E [Hmk _]]]]; inversion E; subst;
+          cbn [RoundtripGen.eobj]; rewrite Hmk; cbn [add_xsi_e]; eauto.
       - destruct (fits_item_simple c u ok _ var t y Hty Hst Hok) as [p [-> _]].
         cbn [RoundtripGen.e_item]. unfold RoundtripGen.e_prim. eauto.
       - destruct (fits_item_qname c u ok _ var y Hty Hok) as [q1 [-> _]].
@@ -1009,13 +1108,16 @@ Section Main.
     Qed.
     (* ---------------------------------------------------------------- the child elements, one by one *)
     Hypothesis IH : obj_parses n.
+    Hypothesis Hwfcl : wfr cl.
+    Hypothesis Hmcl : u_meta u cl = Some m.
     Hypothesis Hnest : forall e v k, In e (m_elements m) -> In v (snd e) -> v_clazz v = Some k -> wfr k.
     Variable attrs0 : list (qname * str).
     Variable ns0 : nsmap.
     Variable pos0 : nat.
+    Variable xtv0 : option qname.     (* en_xsi_type: only read by a derived factory, which these nodes do not have *)
 
     Definition enW (asg : list N) (wr : list (qname * list qname)) : enode :=
-      mk_enode m attrs0 ns0 pos0 false None None asg wr.
+      mk_enode m attrs0 ns0 pos0 false xtv0 None asg wr.
     Definition asg_after (var : xvar) (asg : list N) : list N :=
       match v_factory var with None => asg ++ [v_index var] | Some _ => asg end.
     (* the queue entries above the class element: nothing, or the open wrapper element *)
@@ -1086,16 +1188,41 @@ Section Main.
     Lemma build_node_class var k mk attrs ns pos asg wr :
       is_elem_var var -> v_clazz var = Some k -> v_types var = [TClass k] ->
       u_meta u k = Some mk -> m_nillable mk = false ->
-      assoc XSI_TYPE attrs = None -> assoc XSI_NIL attrs = None ->
+      Parser.xsi_type_of c attrs ns = ROk None -> assoc XSI_NIL attrs = None ->
       build_node c u (enW asg wr) (v_qname var) var attrs ns pos
       = ROk (Some (NElement (mk_enode mk attrs ns pos false None None [] []))).
     Proof.
       intros Hv Hcl Hty Hmk Hnil Hxt Hxn. pose proof Hv as [Hw _].
       destruct (wf_elem_inv var Hw) as [_ [Hc _]]. destruct (var_common_inv var Hc) as [_ [_ [_ [Hn _]]]].
       unfold build_node, v_is_clazz_union. rewrite Hcl, Hty. change (1 <? N.of_nat (length [TClass k])) with false. cbn iota.
-      unfold Parser.xsi_type_of, xsi_nil_of. rewrite Hxt, Hxn. cbn [truthy_str rbind].
+      rewrite Hxt. unfold xsi_nil_of. rewrite Hxn. cbn [truthy_str rbind].
       unfold build_element_node, fetch, get_meta. rewrite Hmk. cbn [rbind truthy_str].
       reflexivity.
+    Qed.
+
+    (* xsi:type names a strict subclass of the declared class: its metadata, no derived wrapper *)
+    Lemma build_node_derived var kd k attrs ns pos asg wr t mk mkd :
+      is_elem_var var -> v_clazz var = Some kd -> v_types var = [TClass kd] ->
+      u_meta u kd = Some mkd -> u_meta u k = Some mk -> m_clazz mk = k -> m_nillable mk = false ->
+      t <> [] -> m_target_qname mkd <> Some t -> sub_lookup u kd t = Some k -> c_from_qname c t = None ->
+      is_subclass u k kd = true ->
+      Parser.xsi_type_of c attrs ns = ROk (Some t) -> assoc XSI_NIL attrs = None ->
+      build_node c u (enW asg wr) (v_qname var) var attrs ns pos
+      = ROk (Some (NElement (mk_enode mk attrs ns pos false (Some t) None [] []))).
+    Proof.
+      intros Hv Hcl Hty Hmkd Hmk Hmc' Hnil Hne Htg Hsl Hfq Hsub Hxt Hxn. pose proof Hv as [Hw _].
+      destruct (wf_elem_inv var Hw) as [_ [Hc _]]. destruct (var_common_inv var Hc) as [_ [_ [_ [Hn _]]]].
+      unfold build_node, v_is_clazz_union. rewrite Hcl, Hty. change (1 <? N.of_nat (length [TClass kd])) with false. cbn iota.
+      rewrite Hxt. unfold xsi_nil_of. rewrite Hxn. cbn [truthy_str rbind].
+      unfold build_element_node, fetch, get_meta. rewrite Hmkd. cbn [rbind].
+      destruct t as [|ch t']; [congruence|]. cbn [truthy_str].
+      match goal with |- context [ostr_eqb ?a ?b] => destruct (ostr_eqb a b) eqn:Eo end.
+      { exfalso. apply Htg. destruct (m_target_qname mkd) as [tq|]; [|discriminate Eo].
+        cbn [ostr_eqb opt_eqb] in Eo. apply str_eqb_eq in Eo. rewrite Eo. reflexivity. }
+      assert (Ef : find_subclass c u kd (ch :: t') = Some k).
+      { unfold find_subclass, ctx_find_types. rewrite Hfq. exact Hsl. }
+      rewrite Ef, Hmk. cbn [rbind is_some negb andb].
+      rewrite Hmc', Hsub. reflexivity.
     Qed.
 
     Lemma reads_prim var y t a :
@@ -1167,20 +1294,48 @@ Section Main.
       = prun (mk_pstate (ctx wo ++ NElement (enW (asg_after var asg) (wr_after var wo wr)) :: Q) (objs ++ [(Some (v_qname var), y)]) W) rest.
     Proof.
       intros Hv Hcl Hty Hfy Hasg Hag Hr. pose proof Hv as [Hw Hin].
-      destruct (fits_item_class c u ok _ var k y Hty Hfy) as [cl' [fs' [-> Hfk]]].
-      cbn [RoundtripGen.e_item] in Hr.
-      assert (Hwk : wfr k) by (apply (Hnest _ var k Hin (or_introl eq_refl) Hcl)).
-      destruct (IH k (VObj cl' fs') (Some (v_qname var)) Hwk Hfk a Hr) as [attrs [ns [inner [-> [Hxt [Hxn Hrun]]]]]].
-      assert (Hname : elem_name (Some (v_qname var)) k = v_qname var).
-      { unfold elem_name. pose proof (wf_elem_qname var Hw) as Hq. destruct (v_qname var); [congruence|reflexivity]. }
-      rewrite Hname in *.
-      destruct (wfr_inv u k Hwk) as [mk [Hmk [_ [Hwck _]]]].
-      destruct (wf_class_inv mk Hwck) as [G1 G2 G3 G4 G5 G6 G7 G8 G9 G10 G11 G12 G13].
-      cbn [app].
-      rewrite (run_step cfg c u replay root _ _ _ _
-                 (start_child var attrs ns asg wr wo Q objs W _ Hv Hasg Hag
-                    (build_node_class var k mk attrs ns (length objs) asg wr Hv Hcl Hty Hmk G5 Hxt Hxn))).
-      apply (Hrun mk Hmk).
+      assert (Hname : forall k', elem_name (Some (v_qname var)) k' = v_qname var).
+      { intros k'. unfold elem_name. pose proof (wf_elem_qname var Hw) as Hq. destruct (v_qname var); [congruence|reflexivity]. }
+      destruct (fits_item_class c u ok _ var k y Hty Hfy) as [cl' [fs' [-> [[-> Hfk]|[Hdok Hfk]]]]].
+      - (* an instance of the declared class: no xsi:type *)
+        cbn [RoundtripGen.e_item] in Hr.
+        assert (Ex : xsi_for u var k = None).
+        { unfold xsi_for. rewrite Hty. cbn [existsb ptype_eqb]. rewrite N.eqb_refl. reflexivity. }
+        rewrite Ex in Hr.
+        assert (Hwk : wfr k) by (apply (Hnest _ var k Hin (or_introl eq_refl) Hcl)).
+        destruct (IH k (VObj k fs') (Some (v_qname var)) None Hwk Hfk) with (pevs := a) as [attrs [ns [inner [-> [Hxt [Hxn Hrun]]]]]];
+          [intros q Hq; discriminate Hq|exact Hr|].
+        rewrite Hname in *.
+        destruct (wfr_inv u k Hwk) as [mk [Hmk [_ [Hwck _]]]].
+        destruct (wf_class_inv mk Hwck) as [G1 G2 G3 G4 G5 G6 G7 G8 G9 G10 G11 G12 G13].
+        cbn [app].
+        rewrite (run_step cfg c u replay root _ _ _ _
+                   (start_child var attrs ns asg wr wo Q objs W _ Hv Hasg Hag
+                      (build_node_class var k mk attrs ns (length objs) asg wr Hv Hcl Hty Hmk G5 Hxt Hxn))).
+        apply (Hrun mk Hmk).
+      - (* an instance of a strict subclass, announced by xsi:type *)
+        cbn [RoundtripGen.e_item] in Hr.
+        destruct (derived_ok_inv c u ok var k cl' Hdok)
+          as [Hne [Hsub [mk [mkd [t [Hmk [Hmkd [Htq [Htne [Htv [Htg [Hsl [Hfq [Hokt Hqt]]]]]]]]]]]]]].
+        assert (Ex : xsi_for u var cl' = Some t).
+        { unfold xsi_for. rewrite Hty. cbn [existsb ptype_eqb].
+          destruct (N.eqb_spec cl' k) as [E|_]; [contradiction|]. cbn [orb]. rewrite Hmk, Htq.
+          unfold EventGen.real_xsi_type. destruct (str_eqb_spec t (v_qname var)) as [E|_]; [contradiction|reflexivity]. }
+        rewrite Ex in Hr.
+        assert (Hxv : xsi_val (Some t) = Some t) by (destruct t; [congruence|reflexivity]).
+        assert (Hwk : wfr cl').
+        { apply (wfr_sub u cl m _ var k cl' Hwfcl Hmcl Hin (or_introl eq_refl) Hcl); [congruence|exact Hne|exact Hsub]. }
+        destruct (IH cl' (VObj cl' fs') (Some (v_qname var)) (Some t) Hwk Hfk) with (pevs := a) as [attrs [ns [inner [-> [Hxt [Hxn Hrun]]]]]];
+          [intros q Hq; rewrite Hxv in Hq; inversion Hq; subst q; split; assumption|exact Hr|].
+        rewrite Hname in *. rewrite Hxv in Hxt.
+        destruct (wfr_inv u cl' Hwk) as [mk' [Hmk' [Hmc' [Hwck _]]]]. rewrite Hmk in Hmk'. inversion Hmk'; subst mk'. clear Hmk'.
+        destruct (wf_class_inv mk Hwck) as [G1 G2 G3 G4 G5 G6 G7 G8 G9 G10 G11 G12 G13].
+        cbn [app].
+        rewrite (run_step cfg c u replay root _ _ _ _
+                   (start_child var attrs ns asg wr wo Q objs W _ Hv Hasg Hag
+                      (build_node_derived var k cl' attrs ns (length objs) asg wr t mk mkd Hv Hcl Hty Hmkd Hmk Hmc' G5
+                         Htne Htg Hsl Hfq Hsub Hxt Hxn))).
+        apply (Hrun mk Hmk).
     Qed.
 
     (* a QName valued element: its text resolves through the prefix map of its own start event *)
@@ -1283,7 +1438,7 @@ Section Main.
     Proof.
       induction l as [|y l IHl]; intros kes asg wr wo Q objs W rest Hv Hf Hall Hag Hr.
       - cbn [map reads_kids] in Hr. subst kes. rewrite app_nil_r. reflexivity.
-      - cbn [map reads_kids] in Hr. destruct Hr as [a [b [-> [Ha Hb]]]]. inversion Hall as [|? ? Hy Hl]; subst.
+      - cbn [map reads_kids] in Hr. destruct Hr as [a [b [-> [Ha Hb]]]]. inversion_clear Hall as [|? ? Hy Hl].
         rewrite <- app_assoc.
         rewrite (one_item_run var y a asg wr wo Q objs W (b ++ rest) Hv Hy); [|rewrite Hf; discriminate|exact Hag|exact Ha].
         unfold asg_after. rewrite Hf.
@@ -1366,7 +1521,7 @@ Section Main.
         + specialize (Hone eq_refl). destruct (occ var x) as [|y [|? ?]]; [| |cbn [length] in Hone; lia].
           * cbn [map reads_kids] in Hr. subst kes. cbn [map]. rewrite !app_nil_r. reflexivity.
           * cbn [map reads_kids] in Hr. destruct Hr as [a [b [-> [Ha ->]]]]. rewrite !app_nil_r.
-            inversion Hall as [|? ? Hy _]; subst.
+            inversion_clear Hall as [|? ? Hy _].
             apply (one_item_run var y a asg wr None Q objs W rest Hv Hy (fun _ => Hasg eq_refl) I Ha).
     Qed.
 
@@ -1693,7 +1848,7 @@ Section Main.
     Proof. destruct (str_eqb_spec a b); [left|right]; assumption. Qed.
 
     Lemma end_complex asg q text tail Q objs W :
-      m_text m = None -> pos0 = length objs -> reads_attrs ns0 eats attrs0 -> blank_o tail = true ->
+      m_text m = None -> pos0 = length objs -> reads_attrs ns0 eatsx attrs0 -> blank_o tail = true ->
       pstep (mk_pstate (NElement (enW asg (flat_map wentryp ps)) :: Q) (objs ++ flat_map taggedp ps) W) (PEnd q text tail)
       = ROk (mk_pstate Q (objs ++ [(Some q, VObj cl fs)]) W).
     Proof.
@@ -1802,7 +1957,7 @@ Section Main.
 
     Lemma end_simple tv asg wr q tail Q objs W :
       m_text m = Some tv -> fits_text tv (F tv) = true ->
-      pos0 = length objs -> reads_attrs ns0 eats attrs0 -> blank_o tail = true ->
+      pos0 = length objs -> reads_attrs ns0 eatsx attrs0 -> blank_o tail = true ->
       (forall q1, F tv <> VP (PQName q1)) ->
       pstep (mk_pstate (NElement (enW asg wr) :: Q) objs W) (PEnd q (text_of tv) tail)
       = ROk (mk_pstate Q (objs ++ [(Some q, VObj cl fs)]) W).
@@ -1888,7 +2043,7 @@ Section Main.
     (* simple content whose value is a QName: the text resolves through the prefix map of the start event *)
     Lemma end_simple_q tv asg wr q q1 s tail Q objs W :
       m_text m = Some tv -> fits_text tv (F tv) = true ->
-      pos0 = length objs -> reads_attrs ns0 eats attrs0 -> blank_o tail = true ->
+      pos0 = length objs -> reads_attrs ns0 eatsx attrs0 -> blank_o tail = true ->
       F tv = VP (PQName q1) -> s <> [] -> resolve_qname ns0 s = Some (Bind.split_qname q1) ->
       pstep (mk_pstate (NElement (enW asg wr) :: Q) objs W) (PEnd q (Some s) tail)
       = ROk (mk_pstate Q (objs ++ [(Some q, VObj cl fs)]) W).
@@ -1975,26 +2130,39 @@ Section Main.
   Qed.
 
   (* ---------------------------------------------------------------- the induction *)
+  Lemma xsi_nil_not_type : XSI_NIL <> XSI_TYPE.
+  Proof. vm_compute. discriminate. Qed.
+
   Lemma obj_parses_step n : obj_parses n -> obj_parses (S n).
   Proof.
-    intros IH cl o qn Hwf Hfit pevs Hr.
+    intros IH cl o qn xt Hwf Hfit Hxq pevs Hr.
     destruct (fits_inv c u ok py_isspace n cl o Hfit) as [fs [m [-> [Hm [Hnames [Hfa [Hfe Hft]]]]]]].
     destruct (wfr_inv u cl Hwf) as [m' [Hm' [Hmc [Hwc Hnest]]]]. rewrite Hm in Hm'. inversion Hm'; subst m'. clear Hm'.
-    cbn [RoundtripGen.eobj] in Hr. rewrite Hm in Hr. cbn [reads] in Hr.
+    cbn [RoundtripGen.eobj] in Hr. rewrite Hm in Hr. cbn [add_xsi_e reads] in Hr.
     destruct Hr as [attrs [ns [text [tail [kes [Hp [Hra [Htl Hk]]]]]]]].
     rewrite clark_split in Hp.
     assert (Hq : elem_name qn cl = match qn with Some ((_ :: _) as q) => q | _ => m_qname m end).
     { unfold elem_name. rewrite Hm. reflexivity. }
     rewrite <- Hq in Hp.
     exists attrs, ns, (kes ++ [PEnd (elem_name qn cl) text tail]).
-    destruct (reads_attrs_carried fs m Hwc Hfa ns attrs Hra) as [Hcar _].
-    assert (Hres : forall k, reserved_name k = true -> assoc k attrs = None).
-    { intros k Hkr. apply assoc_none. intros Hi. apply in_map_iff in Hi as [[k' s'] [Ek Hks]]. cbn [fst] in Ek. subst k'.
-      destruct (Hcar k s' Hks) as [var [t [_ [Hqv [Hw _]]]]].
-      destruct (wf_attr_inv var Hw) as [_ [_ [_ [_ [Hr _]]]]]. congruence. }
-    split; [exact Hp|]. split; [apply Hres; unfold reserved_name; rewrite str_eqb_refl, orb_true_r; reflexivity|].
-    split; [apply Hres; unfold reserved_name; rewrite str_eqb_refl; reflexivity|].
-    intros m' Hm' Q objs W rest. rewrite Hm in Hm'. inversion Hm'; subst m'. clear Hm'.
+    destruct (reads_attrs_carried fs m Hwc Hfa xt Hxq ns attrs Hra) as [Hcar [_ [Hnda [Hnox Hx]]]].
+    assert (Hnil : assoc XSI_NIL attrs = None).
+    { apply assoc_none. intros Hi. apply in_map_iff in Hi as [[k' s'] [Ek Hks]]. cbn [fst] in Ek. subst k'.
+      destruct (Hcar _ s' Hks) as [[E _]|[_ [var [t [_ [Hqv [Hw _]]]]]]]; [exact (xsi_nil_not_type E)|].
+      destruct (wf_attr_inv var Hw) as [_ [_ [_ [_ [Hr' _]]]]].
+      unfold reserved_name in Hr'. rewrite Hqv, str_eqb_refl in Hr'. discriminate Hr'. }
+    assert (Hxty : Parser.xsi_type_of c attrs ns = ROk (xsi_val xt)).
+    { unfold Parser.xsi_type_of. destruct (xsi_val xt) as [xq|] eqn:Ex.
+      - destruct (Hx xq eq_refl) as [s0 [Hi Hres]].
+        rewrite (assoc_nodup XSI_TYPE attrs s0 Hnda Hi).
+        destruct (Hxq xq Ex) as [Hokq Hqq].
+        destruct s0 as [|ch0 s0'].
+        { exfalso. cbn in Hres. inversion Hres as [Hsp]. unfold qname_ok in Hqq. rewrite <- Hsp in Hqq. discriminate Hqq. }
+        cbn [truthy_str]. rewrite (proj2 conv_law None ns xq _ Hokq Hres).
+        destruct xt as [[|ch q]|]; try discriminate Ex. inversion Ex; subst xq. reflexivity.
+      - rewrite (assoc_none XSI_TYPE attrs (Hnox eq_refl)). reflexivity. }
+    split; [exact Hp|]. split; [exact Hxty|]. split; [exact Hnil|].
+    intros m' Hm' xtv Q objs W rest. rewrite Hm in Hm'. inversion Hm'; subst m'. clear Hm'.
     rewrite <- app_assoc. cbn [app].
     destruct (m_text m) as [tv|] eqn:Htx.
     - (* simple content *)
@@ -2014,13 +2182,13 @@ Section Main.
         assert (Htext : text = text_of fs tv /\ kes = []).
         { unfold text_of. rewrite Ex in *. unfold RoundtripGen.e_field in Hk. exact Hk. }
         destruct Htext as [-> ->]. cbn [app]. apply run_step.
-        apply (end_simple cl fs m Hwc Hmc Hnames Hfa attrs ns (length objs) tv [] [] (elem_name qn cl) tail Q objs W Htx Hft eq_refl Hra Htl).
+        apply (end_simple cl fs m Hwc Hmc Hnames Hfa xt Hxq attrs ns (length objs) xtv tv [] [] (elem_name qn cl) tail Q objs W Htx Hft eq_refl Hra Htl).
         intros q1 E. rewrite Ex in E. discriminate E.
       + (* a leaf or a token list *)
         assert (Htext : text = text_of fs tv /\ kes = []).
         { rewrite (text_of_eq fs tv t Hs). apply (reads_text_content ns (eobj n) tv _ t text kes Hkt (wf_text_nowrap tv Hwt) Hs Hk). }
         destruct Htext as [-> ->]. cbn [app]. apply run_step.
-        apply (end_simple cl fs m Hwc Hmc Hnames Hfa attrs ns (length objs) tv [] [] (elem_name qn cl) tail Q objs W Htx Hft eq_refl Hra Htl).
+        apply (end_simple cl fs m Hwc Hmc Hnames Hfa xt Hxq attrs ns (length objs) xtv tv [] [] (elem_name qn cl) tail Q objs W Htx Hft eq_refl Hra Htl).
         intros q1 E. rewrite E in Hs. inversion Hs as [p0 Hp0 E'|]. rewrite (leaf_nq c u ok t _ q1) in Hp0. discriminate Hp0.
       + (* a QName *)
         assert (He : e_field (eobj n) tv (field_of fs tv) = [EData [AQName (Bind.split_qname q1)]]).
@@ -2028,7 +2196,7 @@ Section Main.
           rewrite Hkt, (wf_text_nowrap tv Hwt). unfold RoundtripGen.e_data. cbn [RoundtripGen.e_atoms].
           rewrite (qname_nontrivial q1 Hqok). reflexivity. }
         rewrite He in Hk. destruct Hk as [s [Hs [Hne [-> ->]]]]. cbn [atoms_read] in Hs. cbn [app]. apply run_step.
-        apply (end_simple_q cl fs m Hwc Hmc Hnames Hfa attrs ns (length objs) tv [] [] (elem_name qn cl) q1 s tail Q objs W
+        apply (end_simple_q cl fs m Hwc Hmc Hnames Hfa xt Hxq attrs ns (length objs) xtv tv [] [] (elem_name qn cl) q1 s tail Q objs W
                  Htx Hft eq_refl Hra Htl Eq Hne Hs).
     - (* complex content *)
       assert (Hpf : forall vv, In vv (pairs cl fs m) -> In (fst vv) (get_element_vars m) /\ pair_ok m n vv).
@@ -2044,17 +2212,17 @@ Section Main.
         destruct x; try destruct He;
           (unfold RoundtripGen.e_wrap in He; destruct (v_wrapper_qname var) as [[|ch w]|];
            [apply Hitems; exact He|destruct He as [<-|[]]; eauto|apply Hitems; exact He]). }
-      destruct (pairs_run cl fs m Hwc Hmc n Hfe IH Hnest attrs ns (length objs) (pairs cl fs m) kes [] [] Q objs W
+      destruct (pairs_run cl fs m Hwc Hmc n Hfe IH Hwf Hm Hnest attrs ns (length objs) xtv (pairs cl fs m) kes [] [] Q objs W
                   (PEnd (elem_name qn cl) text tail :: rest) Htx Hpf
                   (ps_once _ _ _ _ (class_pairs_fits c u ok _ _ cl fs m Hwc Hnames Hfe))
                   (fun _ _ _ => conj (fun Hi => Hi) (fun Hi => Hi)) Hkids) as [asg' Hrun].
       unfold enW in Hrun. rewrite Hrun. apply run_step. cbn [app].
-      apply (end_complex cl fs m Hwc Hmc Hnames Hfa n Hfe attrs ns (length objs) asg' (elem_name qn cl) text tail Q objs W Htx eq_refl Hra Htl).
+      apply (end_complex cl fs m Hwc Hmc Hnames Hfa xt Hxq n Hfe Hwf Hm attrs ns (length objs) xtv asg' (elem_name qn cl) text tail Q objs W Htx eq_refl Hra Htl).
   Qed.
 
   Theorem all_parse : forall n, obj_parses n.
   Proof.
     induction n as [|n IHn]; [|apply obj_parses_step; exact IHn].
-    intros cl o qn _ Hfit. discriminate Hfit.
+    intros cl o qn xt _ Hfit. discriminate Hfit.
   Qed.
 End Main.
